@@ -96,6 +96,10 @@ function getPrepareStackTrace (originalPrepareStackTrace) {
       return originalPrepareStackTrace(error, parsedCallSites)
     }
 
+    if (!error || typeof error.stack !== 'string') {
+      // nothing to translate (and nothing to split): hand back what there is
+      return error ? error.stack : error
+    }
     const stackLines = error.stack.split('\n')
     // the frames are the last lines of the stack: a message that continues on a line starting
     // with "at" must not be taken for the first frame
